@@ -215,7 +215,12 @@ def _run(check: PropertyCheck, driver_module: str, tier: str, seed: int, t0: flo
             raise MachineryError(f"{spec['module']} emitted no scenario (vacuous instance)")
         if len(res.emitted) < spec.get("min_emitted", 0):      # guards against an instance that shrank by accident
             raise MachineryError(f"{spec['module']} emitted {len(res.emitted)} scenarios, at least {spec['min_emitted']} expected")
-        scenarios += [(s, "tlc") for s in res.emitted]
+        # (a very large instance may be replayed in part: every stride-th behaviour, the offset following VERIF_SEED; the
+        #  instance itself is model-checked completely)
+        stride = max(1, int(spec.get("stride", 1)))
+        scenarios += [(s, "tlc") for i, s in enumerate(res.emitted) if (i + seed) % stride == 0]
+        if stride > 1:
+            mc_info[-1]["replayed_every"] = stride
     n_tlc = len(scenarios)
     t_mc = time.time() - t0
     if check.extra_scenarios is not None:
@@ -375,7 +380,7 @@ def _run(check: PropertyCheck, driver_module: str, tier: str, seed: int, t0: flo
             "samples": samples,
             "evaluations": n_cases, "distinct_nontrivial": len(nontrivial_keys),
             "rule": check.rule,
-            "exhaustive": bool(check.exhaustive_claim and n_tlc > 0 and not limit),
+            "exhaustive": bool(check.exhaustive_claim and n_tlc > 0 and not limit and not any(m.get("replayed_every") for m in mc_info)),
             "scenarios_from_tlc": n_tlc, "scenarios_random": n_cases - n_tlc,
             "trace_events": events, "model_runs": mc_info,
             "rejected_known": known, "rejected_new": len(violations), "whole_runs_validated_against_Ropt_tla": whole,
